@@ -577,3 +577,211 @@ Proof.
                 (trace_ok_l c u H l Hl cfg inp w Hw Hd Hf (c_devblk cfg) eq_refl)).
 Qed.
 Print Assumptions image_trace_ok.
+
+(* ------------------------------------------------------------------------------------------ *)
+(* the xattr section: sqfs_xattr_writer_flush (lib/sqfs/src/xattr/xattr_writer_flush.c) at byte level      *)
+(* ------------------------------------------------------------------------------------------ *)
+(* Model coq/ImgXattr/FlushModel.v: xflush, statement by statement on the meta writer model above (write_key / write_value /
+   write_value_ool / write_block_pairs / write_kv_pairs incl. the (block << 16) | offset references taken from
+   sqfs_meta_writer_get_position, sqfs_meta_writer_reset, alloc_location_table, write_id_table with the locations[] array and
+   the i < loc_count guard of fix F06, locations[i] + id_start, header + location words at the end of the id blocks), from the
+   writer state of C01.XattrModel (key / value tables, reference counts, de-duplicated key-value blocks).  Its result has the
+   shape of Image.FinishModel.in_xattr, so the whole-image theorems above compose with it: the hypothesis
+       xflush compress (o_xattr w) xw = Ok (in_xattr inp)
+   says "the xattr section of the image is what the flush model appends where the id table ends".
+   Reader side: coq/ImgXattr/XattrRead.v (read_xattr_table, read_xattr_set, validator clause v_xattr), written from
+   doc/format.adoc "Extended Attribute Table".  No bound on the number of sets. *)
+From SqfsV Require Import C01.XattrModel C01.XattrProofs C01.XattrWriterProofs.
+From SqfsV Require Import ImgXattr.FlushModel ImgXattr.CodecRel ImgXattr.KvRefine ImgXattr.FlushShape ImgXattr.XattrRead
+  ImgXattr.ImageXattr.
+From SqfsV Require ImgXattr.Example.
+
+(* xattr_flush_layout: what the flush appends is  key-value metadata blocks ++ id metadata blocks ++ { kv_start, count, 0 } ++
+   location words, where (xshape) the key-value blocks are the logical key/value stream of C01's model cut every 8192 bytes
+   (all blocks full but the last) with every reference = on-disk start of the block (relative to kv_start) << 16 | offset, the
+   id blocks hold the 16 byte descriptors (512 per block, all full but the last, ceil(count / 512) blocks), and location word k
+   is EXACTLY the absolute start of id block k (size0 + size of the key-value area + sizes of the id blocks before it: the
+   block_offset of a writer that was reset after the key-value area); the returned header offset is behind the last id block *)
+Theorem xattr_flush_layout : forall compress uncompress, contract compress uncompress ->
+  forall size0 xw bytes off,
+  xflush compress size0 xw = Res.Ok (Some (bytes, off)) ->
+  exists kvr idr descs, xshape compress size0 xw bytes off kvr idr descs.
+Proof. exact (fun c u H => xflush_shape c u H). Qed.
+Print Assumptions xattr_flush_layout.
+
+(* xattr_flush_section_ok: the section the flush model produces satisfies the hypothesis xattr_section_ok of writer_valid (it is
+   empty, or passes the validator's xattr_tail check in place: header inside the file, kv_start = end of the id table section,
+   count >= 1, the location words are exactly the consecutive id block starts and the last id block ends at the header, the
+   key-value blocks tile [kv_start, first id block), every block <= 8 KiB with stored size <= content size, the location list
+   ends at bytes_used) *)
+Theorem xattr_flush_section_ok : forall compress uncompress, contract compress uncompress ->
+  forall limit, limit <= 65535 ->
+  forall cfg inp w,
+  write_image compress limit cfg inp = Res.Ok w -> image_domain cfg inp = true -> image_fits w = true ->
+  forall xw, xflush compress (o_xattr w) xw = Res.Ok (in_xattr inp) -> Res.nlen (x_blocks xw) < 4294967296 ->
+  xattr_section_ok uncompress w.
+Proof. exact xattr_flush_section_ok_l. Qed.
+Print Assumptions xattr_flush_section_ok.
+
+(* writer_valid_with_xattrs: writer_valid without its xattr hypothesis, for images whose xattr section comes from the flush
+   model (any writer state, any number of sets below 2^32) *)
+Theorem writer_valid_with_xattrs : forall compress uncompress, contract compress uncompress ->
+  forall limit, limit <= 65535 ->
+  forall cfg inp w,
+  write_image compress limit cfg inp = Res.Ok w -> image_domain cfg inp = true -> image_fits w = true ->
+  forall xw, xflush compress (o_xattr w) xw = Res.Ok (in_xattr inp) -> Res.nlen (x_blocks xw) < 4294967296 ->
+  valid_image uncompress (c_devblk cfg) (image_bytes w) = true.
+Proof. exact writer_valid_with_xattrs_l. Qed.
+Print Assumptions writer_valid_with_xattrs.
+
+(* xattr_refs_resolve: when the writer state is the result of recording key/value sets (sqfs_xattr_writer_begin / add_kv / end,
+   C01's xw_sets), the validator clause v_xattr holds of the image: the header and the location list decode, the id blocks hold
+   count * 16 bytes, and for EVERY index below count the descriptor's reference names a block of the key-value area and an
+   offset inside it, `count` pairs parse from there (every out-of-line reference resolving the same way), they end exactly
+   `size` bytes later and inside the stream.  (Domain: compressed section < 2^48 bytes so that block offsets fit a reference,
+   uncompressed key-value stream < 4 GiB (kv_bound: 16 + key + value bytes per pair) so that the 32 bit size field is exact.) *)
+Theorem xattr_refs_resolve : forall compress uncompress, contract compress uncompress ->
+  forall limit, limit <= 65535 ->
+  forall cfg inp w,
+  write_image compress limit cfg inp = Res.Ok w -> image_domain cfg inp = true -> image_fits w = true ->
+  forall xw, xflush compress (o_xattr w) xw = Res.Ok (in_xattr inp) -> Res.nlen (x_blocks xw) < 4294967296 ->
+  forall sets idxs, Forall set_ok sets -> xw_sets xw_empty sets = Res.Ok (xw, idxs) ->
+  lenN (w_xattrb w) < 281474976710656 -> kv_bound xw < 4294967296 ->
+  v_xattr uncompress (image_bytes w) (w_super w) = true.
+Proof. exact xattr_refs_resolve_l. Qed.
+Print Assumptions xattr_refs_resolve.
+
+(* image_xattr_roundtrip: reading set k FROM THE IMAGE BYTES — super block xattr table start, header, location list, id block
+   idx / 512 at offset (idx * 16) % 8192, key-value blocks [kv_start, first id block), reference -> block + offset, pairs with
+   prefix ids and out-of-line values — returns the key/value set recorded for it (as a set: last value per key, C01's
+   set_spec), for every index sqfs_xattr_writer_end returned; "no pairs" is 0xFFFFFFFF and reads as the empty set.  Composition
+   of C01's refinement of the recording functions (xw_sets_spec) with the flush model, the meta writer round trip and the
+   layout of the whole image. *)
+Theorem image_xattr_roundtrip : forall compress uncompress, contract compress uncompress ->
+  forall limit, limit <= 65535 ->
+  forall cfg inp w,
+  write_image compress limit cfg inp = Res.Ok w -> image_domain cfg inp = true -> image_fits w = true ->
+  forall xw, xflush compress (o_xattr w) xw = Res.Ok (in_xattr inp) -> Res.nlen (x_blocks xw) < 4294967296 ->
+  forall sets idxs, Forall set_ok sets -> xw_sets xw_empty sets = Res.Ok (xw, idxs) ->
+  lenN (w_xattrb w) < 281474976710656 ->
+  c_no_xattr cfg = false -> Res.nlen (x_blocks xw) < NOIDX ->
+  length idxs = length sets /\
+  forall i kvs idx, nth_error sets i = Some kvs -> nth_error idxs i = Some idx ->
+    exists l, read_xattr_set uncompress (image_bytes w) (w_super w) idx = Res.Ok l /\ Permutation.Permutation l (set_spec kvs).
+Proof. exact image_xattr_roundtrip_l. Qed.
+Print Assumptions image_xattr_roundtrip.
+
+(* xattr_codec_roundtrip_rel: C01's xattr_rt (logical streams, reader model of xattr_reader.c) with block-start hypotheses
+   that CAN hold: Properties_C01.xattr_rt asks "seeking to the start of block k finds block k" and "block starts fit 48 bits"
+   of ALL k : N, which no function satisfies (an injection N -> [0, 2^48)); here they are asked of the nK / nT blocks the two
+   flushed streams use (ImgXattr/CodecRel.v; non-vacuity: ex_xattr_rel_hyps below) *)
+Theorem xattr_codec_roundtrip_rel :
+  forall (bsK bsT : N -> N) (bidxK bidxT : N -> option N) (nK nT : N),
+  (forall k, k < nK -> bidxK (bsK k) = Some k /\ bsK k < 281474976710656) ->
+  (forall k, k < nT -> bidxT (bsT k) = Some k) -> bsT 0 = 0 ->
+  forall sets w idxs,
+    Forall set_ok sets -> xw_sets xw_empty sets = Res.Ok (w, idxs) -> Res.nlen (x_blocks w) < NOIDX ->
+    (forall img, flush bsK bsT true w = Res.Ok (Some img) -> Res.nlen (xi_kv img) <= nK * META) ->
+    16 * Res.nlen (x_blocks w) / 8192 < nT ->
+    length idxs = length sets /\
+    match flush bsK bsT true w with
+    | Res.Ok None => forall i kvs, nth_error sets i = Some kvs -> kvs = [] /\ nth_error idxs i = Some NOIDX
+    | Res.Ok (Some img) =>
+        forall i kvs idx, nth_error sets i = Some kvs -> nth_error idxs i = Some idx ->
+          exists l, rd_all bidxK bidxT img idx = Res.Ok l /\ Permutation.Permutation l (set_spec kvs)
+    | _ => False
+    end.
+Proof. exact xattr_rt_rel. Qed.
+Print Assumptions xattr_codec_roundtrip_rel.
+
+(* ---- non-vacuity ---- *)
+(* the hypotheses of the four image-level theorems hold of two concrete runs (hyps_ok is the conjunction of the decidable ones;
+   Forall set_ok of C01's example sets: ex_xattr_rel_hyps below; contract / limit: ex_image_hyps above): the 96
+   inode image of Image/Example.v with (a) the four sets of C01's example, a shared 20 byte value stored out of line, and (b) 600
+   distinct sets — two id blocks (512 + 88 descriptors), two key-value blocks, every third set sharing a 40 byte value *)
+Example ex_xattr_image_hyps :
+  ImgXattr.Example.hyps_ok ex_sets ImgXattr.Example.ex_small = true /\
+  ImgXattr.Example.hyps_ok ImgXattr.Example.ex_big_sets ImgXattr.Example.ex_big = true /\
+  Forall set_ok ImgXattr.Example.ex_big_sets.
+Proof. exact (conj ImgXattr.Example.ex_small_hyps (conj ImgXattr.Example.ex_big_hyps ImgXattr.Example.ex_big_sets_ok)). Qed.
+
+(* in particular the hypothesis xattr_section_ok of writer_valid / writer_valid_clauses holds with a NON-EMPTY xattr section
+   (its second disjunct: xattr_tail computes to true in place), and with the empty one of the two images of ex_image_hyps *)
+Example ex_xattr_section_ok_nonempty :
+  match snd ImgXattr.Example.ex_small, Image.Example.ex_w, Image.Example.ex_w2 with
+  | Res.Ok w, Res.Ok w1, Res.Ok w2 =>
+      w_xattrb w <> [] /\ lenN (w_xattrb w) = 98 /\
+      xattr_tail (img_uncompress 3) (image_bytes w) (w_super w) (o_xattr w) = true /\
+      xattr_section_ok (img_uncompress 3) w /\
+      xattr_section_ok (img_uncompress 3) w1 /\ xattr_section_ok (img_uncompress 1) w2
+  | _, _, _ => False
+  end.
+Proof.
+  vm_compute. split; [discriminate|]. split; [reflexivity|]. split; [reflexivity|].
+  split; [right; reflexivity|]. split; left; reflexivity.
+Qed.
+
+(* on those images everything computes: the whole validator and v_xattr accept, NO_XATTRS is cleared, the sets read back from
+   the bytes (index 2 of 2 sets is refused), and an image whose last location word is off by two is rejected *)
+Example ex_xattr_small_valid :
+  match snd ImgXattr.Example.ex_small with
+  | Res.Ok w =>
+      let b := image_bytes w in
+      valid_image (img_uncompress 3) 4096 b = true /\
+      v_xattr (img_uncompress 3) b (w_super w) = true /\
+      SuperModel.s_flags (w_super w) = 1256 /\
+      read_xattr_set (img_uncompress 3) b (w_super w) 0 = Res.Ok [(ex_key_a, [49]); (ex_key_t, ex_long)] /\
+      read_xattr_set (img_uncompress 3) b (w_super w) 1 = Res.Ok [(ex_key_a, ex_long)] /\
+      read_xattr_set (img_uncompress 3) b (w_super w) NOIDX = Res.Ok [] /\
+      Res.is_err (read_xattr_set (img_uncompress 3) b (w_super w) 2) = true /\
+      valid_image (img_uncompress 3) 4096
+        (takeN (lenN b - 4096 - 8) b ++ le64 (rd64 (dropN (lenN b - 4096 - 8) b) + 2) ++ dropN (lenN b - 4096) b) = false
+  | _ => False
+  end.
+Proof. exact ImgXattr.Example.ex_small_valid. Qed.
+
+(* 600 sets: count = 600, two location words, two key-value blocks; the validator and v_xattr (all 600 entries) accept; sets
+   on both sides of the 512 border read back; index 600 is refused *)
+Example ex_xattr_big_valid :
+  match snd ImgXattr.Example.ex_big with Res.Ok w => ImgXattr.Example.big_facts w | _ => False end.
+Proof. exact ImgXattr.Example.ex_big_valid. Qed.
+
+(* the relativised hypotheses of xattr_codec_roundtrip_rel hold together: block starts k * 8194, 2^30 blocks, C01's example run *)
+Example ex_xattr_rel_hyps :
+  (forall k, k < 1073741824 -> store_bidx (store_bs k) = Some k /\ store_bs k < 281474976710656) /\
+  store_bs 0 = 0 /\
+  match xw_sets xw_empty ex_sets with
+  | Res.Ok (w, _) =>
+      Forall set_ok ex_sets /\ Res.nlen (x_blocks w) < NOIDX /\
+      (forall img, flush store_bs store_bs true w = Res.Ok (Some img) -> Res.nlen (xi_kv img) <= 1073741824 * META) /\
+      16 * Res.nlen (x_blocks w) / 8192 < 1073741824
+  | _ => False
+  end.
+Proof. exact ImgXattr.Example.ex_rel_hyps. Qed.
+
+(* ---- non-vacuity of older statements (audit, session 3) ---- *)
+(* dir_end_emits_listing / dir_end_total / dir_index_ok: their four hypotheses (Idle meta writer, empty index, size 0, dw_end
+   succeeds) hold together on the state of ex_writer *)
+Example ex_dir_end_hyps :
+  exists dm raws w',
+    mw_append (toy_compress 1) (mw_init true) (repeat 7 (N.to_nat 10000)) = Common.Ok dm /\
+    let w0 := dw_begin (dw_create dm false) in
+    let w := mkDw small_dir (dw_idx w0) (dw_ref w0) (dw_size w0) 5 (dw_dm w0) (dw_export w0) in
+    Idle (toy_compress 1) (dw_dm w) raws /\ dw_idx w = [] /\ dw_size w = 0 /\
+    dw_end (toy_compress 1) w = Common.Ok w' /\ dw_list w <> [].
+Proof.
+  destruct (mw_append (toy_compress 1) (mw_init true) (repeat 7 (N.to_nat 10000))) as [dm| |] eqn:E.
+  2,3: vm_compute in E; discriminate.
+  destruct (append_spec (toy_compress 1) toy_uncompress (toy_contract 1 (N.le_refl 1)) _ _ _ _
+              (init_idle (toy_compress 1) true) E) as (fulls & HI & _).
+  exists dm, ([] ++ fulls).
+  assert (E' := E). vm_compute in E'. injection E' as <-.
+  eexists. split; [reflexivity|]. cbv zeta.
+  split; [exact HI|]. split; [reflexivity|]. split; [reflexivity|].
+  split; [vm_compute; reflexivity|discriminate].
+Qed.
+
+(* super_write_ok: its hypothesis super_fields_ok holds of what super_init returns *)
+Example ex_super_fields_ok :
+  match super_init 131072 7 4 with Common.Ok s => super_fields_ok s | _ => False end.
+Proof. vm_compute. repeat split. Qed.
